@@ -11,7 +11,10 @@ THEOREMS = {"C04": ["apply_patch_replay", "apply_patch_verdicts", "verdicts_are_
                     "loop_flag", "exit_status_truth", "run_exit_status", "run_throws_only_from", "skipped_is_failed",
                     "section_report", "parse_unified_counts", "header_full_hunks", "parsed_unified_never_fatal",
                     "unified_section_hunk_failure_never_fatal", "unified_run_hunk_failure_never_fatal",
-                    "run_hunk_failure_never_fatal"],
+                    "run_hunk_failure_never_fatal",
+                    "parsed_hunks_ctx_writable", "parse_patch_ctx_writable", "parse_patch_counts_ok",
+                    "parse_body_counts_ok", "parsed_never_fatal", "any_section_hunk_failure_never_fatal",
+                    "any_run_hunk_failure_never_fatal"],
             "C05": ["reverse_hunk_involutive", "conforming_reverse", "apply_reverse", "section_forward_writes",
                     "section_reverse_restores", "section_roundtrip", "section_roundtrip_bytes", "section_creates",
                     "section_reverse_of_creation_removes", "section_deletes", "section_reverse_of_deletion_recreates",
